@@ -210,6 +210,120 @@ def _lean_strs(l):
     return "\n".join(out)
 
 
+# generated tie to numpy: the model's cast / promotion rules are *proved equal* to tables probed from the numpy of the
+# running interpreter (Props/C11.lean: C11_cast_rules_match_numpy, C11_ufunc_types_match_numpy,
+# C11_cast_values_match_numpy).  dtypes are coded by their rank: 0 = bool_, 1 = int64, 2 = float64.
+
+_NP_ARRAY_SAMPLES = {"bool": [0, 1], "int": [-3, 2], "float": [-6, 10]}       # entries, encoded
+_NP_SCALAR_SAMPLES = {"bool": [0, 1], "int": [-3, 2], "float": [-11, 2]}      # Python scalars, encoded
+_NP_ASSIGN_SAMPLES = {"bool": [0, 1], "int": [-7, -3, -1, 0, 1, 2, 5],
+                      "float": [-11, -8, -5, -4, -3, -2, -1, 0, 1, 2, 3, 4, 5, 8, 10, 11]}
+
+
+def _numpy_tables():
+    import warnings
+
+    import numpy as np
+
+    pyty = {"bool": bool, "int": int, "float": float}
+
+    def scalar(t, raw):
+        return bool(raw) if t == "bool" else int(raw) if t == "int" else raw / UNIT
+
+    def code(dtype):
+        return {"b": 0, "i": 1, "f": 2}[np.dtype(dtype).kind]
+
+    def enc(x):
+        """(rank of the value's dtype, entry in that dtype's encoding); None if not representable"""
+        k = code(np.asarray(x).dtype)
+        if k == 0:
+            return k, int(bool(x))
+        if k == 1:
+            return k, int(x)
+        y = float(x) * UNIT
+        return (k, int(y)) if y == int(y) else None
+
+    ufuncs = {"add": np.add, "sub": np.subtract, "mul": np.multiply, "max": np.maximum, "min": np.minimum,
+              "and": np.logical_and, "or": np.logical_or, "xor": np.logical_xor}
+
+    def fn_of(op, w):
+        return {"add": lambda x: x + w, "sub": lambda x: x - w, "mul": lambda x: x * w,
+                "and": lambda x: bool(x) and bool(w), "or": lambda x: bool(x) or bool(w),
+                "xor": lambda x: bool(x) != bool(w)}[op]
+
+    copy_scalar, copy_array, where_t, uf_t, fn_t, assign, full, uf_v = [], [], [], [], [], [], [], []
+    with warnings.catch_warnings():
+        warnings.simplefilter("ignore")
+        for a in DTYPES:
+            for b in DTYPES:
+                for table, src in ((copy_scalar, scalar(a, 1)), (copy_array, np.ones(2, dtype=pyty[a]))):
+                    try:
+                        np.copyto(np.zeros(2, dtype=pyty[b]), src)
+                        ok = True
+                    except TypeError:
+                        ok = False
+                    table.append(f"(({RANK[a]}, {RANK[b]}), {'true' if ok else 'false'})")
+                r = np.where(np.array([True, False]), np.zeros(2, dtype=pyty[a]), np.zeros(2, dtype=pyty[b]))
+                where_t.append(f"(({RANK[a]}, {RANK[b]}), {code(r.dtype)})")
+        for op, uf in ufuncs.items():
+            for d in DTYPES:
+                for t in DTYPES:
+                    try:
+                        r = f"some {code(uf(np.zeros(2, dtype=pyty[d]), scalar(t, 1)).dtype)}"
+                    except TypeError:
+                        r = "none"
+                    uf_t.append(f'(("{op}", {RANK[d]}, {RANK[t]}), {r})')
+                    if op not in ("max", "min"):
+                        try:
+                            r = f"some {code(np.vectorize(fn_of(op, scalar(t, 1)))(np.zeros(2, dtype=pyty[d])).dtype)}"
+                        except TypeError:
+                            r = "none"
+                        fn_t.append(f'(("{op}", {RANK[d]}, {RANK[t]}), {r})')
+                    for v in _NP_ARRAY_SAMPLES[d]:
+                        for raw in _NP_SCALAR_SAMPLES[t]:
+                            try:
+                                e = enc(uf(np.array([scalar(d, v)], dtype=pyty[d]), scalar(t, raw))[0])
+                            except TypeError:
+                                continue
+                            if e is not None:
+                                uf_v.append(f'uv "{op}" {RANK[d]} ({v}) {RANK[t]} ({raw}) ({e[1]})')
+        for d in DTYPES:
+            for t in DTYPES:
+                for raw in _NP_ASSIGN_SAMPLES[t]:
+                    arr = np.zeros(1, dtype=pyty[d])
+                    arr[0] = scalar(t, raw)
+                    assign.append(f"av {RANK[d]} {RANK[t]} ({raw}) ({enc(arr[0])[1]})")
+                    full.append(f"av {RANK[d]} {RANK[t]} ({raw}) ({enc(np.full((1, 2), scalar(t, raw), dtype=pyty[d])[0, 1])[1]})")
+
+    def lst(items, per=4):
+        rows = [", ".join(items[i:i + per]) for i in range(0, len(items), per)]
+        return "  [" + ",\n   ".join(rows) + "]"
+
+    L = ["/-! GENERATED by harness/layers_common.py `_numpy_tables()` from the numpy of the running interpreter — rewritten on",
+         "every check, do not edit.  dtypes are coded by rank: 0 = bool_, 1 = int64, 2 = float64; entries and Python scalars are",
+         "in the encoding of their type (bool 0/1, the integer, floats in quarters).",
+         "`npCopytoScalar` / `npCopytoArray`: does `np.copyto(array of dtype dst, scalar / array of type src)` accept the cast;",
+         "`npWhereType`: dtype of `np.where(cond, a, b)`; `npUfuncType`: dtype of `ufunc(array of dtype d, Python scalar of type t)`",
+         "(`none`: TypeError); `npFnType`: dtype of `np.vectorize(lambda x: x OP scalar)(array)`; `npAssign`: the entry after",
+         "`arr[0] = scalar`, keyed (dtype of arr, type of scalar, scalar); `npFull`: the entries of `np.full(shape, scalar, dtype)`;",
+         "`npUfuncValue`: `ufunc(array([v], dtype d), scalar)[0]` in the encoding of the result dtype, keyed (op, d, v, t, scalar). -/",
+         "namespace Mesa.Layers.Gen", "",
+         f'def numpyVersion : String := "{np.__version__}"',
+         "def av (d t : Nat) (raw r : Int) : (Nat × Nat × Int) × Int := ((d, t, raw), r)",
+         "def uv (op : String) (d : Nat) (v : Int) (t : Nat) (raw r : Int) : (String × Nat × Int × Nat × Int) × Int :=",
+         "  ((op, d, v, t, raw), r)",
+         f"def npCopytoScalar : List ((Nat × Nat) × Bool) :=\n{lst(copy_scalar, 3)}",
+         f"def npCopytoArray : List ((Nat × Nat) × Bool) :=\n{lst(copy_array, 3)}",
+         f"def npWhereType : List ((Nat × Nat) × Nat) :=\n{lst(where_t, 3)}",
+         f"def npUfuncType : List ((String × Nat × Nat) × Option Nat) :=\n{lst(uf_t, 3)}",
+         f"def npFnType : List ((String × Nat × Nat) × Option Nat) :=\n{lst(fn_t, 3)}",
+         f"def npAssign : List ((Nat × Nat × Int) × Int) :=\n{lst(assign, 5)}",
+         f"def npFull : List ((Nat × Nat × Int) × Int) :=\n{lst(full, 5)}",
+         f"def npUfuncValue : List ((String × Nat × Int × Nat × Int) × Int) :=\n{lst(uf_v, 3)}",
+         "", "end Mesa.Layers.Gen"]
+    return "\n".join(L) + "\n"
+
+
 def gen_tables():
     """{relative lean path: content} — rewritten from MESA_REPO on every check"""
     probe = cell_klass_probe()
@@ -237,7 +351,8 @@ def gen_tables():
          f"def pythonImplied : List String :=\n{_lean_strs(implied)}",
          f"def cellKlassProbe : List String :=\n{_lean_strs(probe)}",
          "", "end Mesa.Layers.Gen"]
-    return {"MesaModel/Gen/LayersTables.lean": "\n".join(L) + "\n"}
+    return {"MesaModel/Gen/LayersTables.lean": "\n".join(L) + "\n",
+            "MesaModel/Gen/NumpyTables.lean": _numpy_tables()}
 
 
 def parse_coord(s):
